@@ -121,7 +121,11 @@ def convert(env_a, ta, env_b, tb, v):
         if ra.name == "float32" and rb.name == "float64":
             return v
         if ra.name == "float64" and rb.name == "float32":
-            if V.f32(v) != v and v == v:
+            try:
+                inexact = V.f32(v) != v and v == v
+            except OverflowError:
+                inexact = True          # finite, but beyond the float32 range
+            if inexact:
                 raise Unconvertible("float narrowing is not exact")
             return v
         raise Unconvertible("%s -> %s" % (ra.name, rb.name))
@@ -194,7 +198,9 @@ def make_chain(rng):
             d.steps.append(("evo4", M.Prim(rng.choice(["int32", "uint16", "float32"])), True))
             d.steps.append(("evo5", M.Vec(M.Prim(rng.choice(["int32", "int8"]))), True))
             d.steps.append(("evo6", M.Opt(M.Prim(rng.choice(["int32", "float32", "uint16"]))), True))
-            d.steps.append(("evo7", M.Opt(M.Prim(rng.choice(["int32", "int16"]))), False))
+            # (not the element type of evo6: yardl - also the pinned upstream - reports an unchanged `stream<T?>` step as an
+            #  incompatible change once another step of type `T?` was changed in the same protocol; a verdict matter, C06)
+            d.steps.append(("evo7", M.Opt(M.Prim(rng.choice(["int16", "int8"]))), False))
     must = ()
     if len(recs) >= 2 and rng.chance(0.6):
         # one generic record instantiated with two different records that the edits below may change: the
@@ -220,7 +226,9 @@ def make_chain(rng):
     for r in recs:
         if rng.chance(0.6):
             r.fields.append(("vecfield%d" % rng.randint(1, 99), M.Vec(M.Prim(rng.choice(["int32", "int16", "float32"])))))
-    newest = E.with_versions(base, rng.fork("ver"), rng.randint(1, 2), partial=True, must_edit=must)
+    k = rng.fork("chainshape")
+    newest = E.with_versions(base, rng.fork("ver"), k.choice([1, 2, 2, 3]), partial=True, must_edit=must,
+                             order=k.choice(["oldest_first", "oldest_first", "newest_first", "shuffled"]), p_new_protocol=k.choice([0.0, 0.4]))
     return newest
 
 
@@ -359,7 +367,7 @@ def model_task(task, ybin, root):
         if k not in seen:
             seen.add(k)
             out.append((rec, d))
-    return {"stats": stats, "violations": out, "cases": cases, "samples": [{"model_index": i, "versions": [l for l, _ in newest.versions]}]}
+    return {"stats": stats, "violations": out, "cases": cases, "samples": [{"model_index": i, "versions_as_listed": [l for l, _ in newest.versions], "edits_per_step": getattr(newest, "edit_log", [])}]}
 
 
 def replay_doc(d, ybin, root):
@@ -379,8 +387,8 @@ def replay_doc(d, ybin, root):
 
 
 def main():
-    runner.run(PROP, "exploration", "checks.C05", quick_models=16, thorough_budget=1800,
-               rule=("one case = one protocol of one accepted version chain (1-2 predecessors, 1-4 documented edits per step: add/remove optional field, add/remove field, reorder "
+    runner.run(PROP, "exploration", "checks.C05", quick_models=28, max_reject=0.6, thorough_budget=1800,
+               rule=("one case = one protocol of one accepted version chain (1-3 predecessors, listed oldest-first, newest-first or shuffled in the manifest; protocols may first appear in a middle version; 1-4 documented edits per step: add/remove optional field, add/remove field, reorder "
                      "fields, widen int/float, T -> T?, add stream/vector/optional step, add definition, rename through an alias) x 3 seeded value workloads per predecessor x three "
                      "mixed-version pipelines (old stream -> new reader; new writer targeting the old version; old -> new -> old); chains yardl rejects are discarded and counted; 60% of the chains carry a generic record instantiated with two different records, mostly ones reachable only through it"),
                real_code="generated C++ for the newest package with `versions:` (compatibility serializers, per-version switches, VersionFromSchema) + shipped headers; old-version schemas from the generated code of the old packages",
